@@ -1,4 +1,5 @@
 import Tmv.Model.MempoolV1
+import Tmv.Model.MempoolV1Split
 import Tmv.Lemmas.MempoolList
 /-! Invariants of the v1 (priority) mempool model and their preservation by every operation. -/
 namespace Tmv.Mempool.V1
@@ -986,14 +987,56 @@ theorem filterMap_find_self (l : List WTx) (hn : (l.map (·.tx)).Nodup) :
   exact filterMap_eq_self _ l (fun e he => find_self l hn e he)
 
 /-- `allEntriesSorted` lists exactly the pool entries (each once) … -/
-theorem allEntriesSorted_perm {s : State} (hi : Inv s) : (allEntriesSorted s).Perm s.txs := by
-  unfold allEntriesSorted
-  refine (sortBy_perm _ _).trans ?_
-  have h1 := hi.map.filterMap (fun k => s.txs.find? (fun e => decide (e.tx = k)))
-  have h2 := filterMap_find_self s.txs hi.nodup
-  unfold keys at h1
-  rw [h2] at h1
-  exact h1
+theorem allEntriesSorted_perm (s : State) : (allEntriesSorted s).Perm s.txs :=
+  sortBy_perm _ _
+
+/-- insertion keeps the relative order of what was there and puts the new element in front of
+every element it is not strictly after -/
+theorem insertBy_stable {α : Type} (lt : α → α → Bool) (a : α) (l : List α) :
+    l.Sublist (insertBy lt a l) ∧
+    ∀ y ∈ l, lt y a = false → (∀ z ∈ l, lt z a = true → True) →
+      (List.Pairwise (fun x y => lt y x = false) l → [a, y].Sublist (insertBy lt a l)) := by
+  induction l with
+  | nil => exact ⟨List.Sublist.refl _ |>.trans (by simp [insertBy]), fun y hy => by cases hy⟩
+  | cons b r ih =>
+    constructor
+    · unfold insertBy
+      split
+      · exact List.Sublist.cons₂ b ih.1
+      · exact List.Sublist.cons a (List.Sublist.refl _)
+    · intro y hy hya _ hp
+      have hp' := List.pairwise_cons.1 hp
+      unfold insertBy
+      split
+      · rename_i hba
+        -- b is strictly before a; y cannot be b (lt y a = false), so y ∈ r
+        rcases List.mem_cons.1 hy with rfl | hyr
+        · rw [hya] at hba; cases hba
+        · exact List.Sublist.cons b (ih.2 y hyr hya (fun _ _ _ => trivial) hp'.2)
+      · exact List.Sublist.cons₂ a (List.singleton_sublist.2 hy)
+
+theorem sortBy_stable {α : Type} (lt : α → α → Bool)
+    (asym : ∀ a b, lt a b = true → lt b a = false)
+    (trans : ∀ a b c, lt b a = false → lt c b = false → lt c a = false) :
+    ∀ (l : List α) (x y : α), [x, y].Sublist l → lt y x = false → [x, y].Sublist (sortBy lt l) := by
+  intro l
+  induction l with
+  | nil => intro x y h; cases h
+  | cons a r ih =>
+    intro x y h hyx
+    show [x, y].Sublist (insertBy lt a (sortBy lt r))
+    cases h with
+    | cons _ h' => exact (ih x y h' hyx).trans (insertBy_stable lt a _).1
+    | cons_cons _ h' =>
+      have hy : y ∈ r := List.singleton_sublist.1 h'
+      have hy' : y ∈ sortBy lt r := (sortBy_perm lt r).mem_iff.2 hy
+      exact (insertBy_stable lt a (sortBy lt r)).2 y hy' hyx (fun _ _ _ => trivial)
+        (sortBy_sorted lt asym trans r)
+
+/-- ties keep their arrival (list) order -/
+theorem allEntriesSorted_stable (s : State) (x y : WTx) (h : [x, y].Sublist s.txs)
+    (hyx : reapBefore y x = false) : [x, y].Sublist (allEntriesSorted s) :=
+  sortBy_stable reapBefore reapBefore_asym reapBefore_trans s.txs x y h hyx
 
 /-- … in non-increasing priority, ties by arrival -/
 theorem allEntriesSorted_sorted (s : State) :
@@ -1230,5 +1273,64 @@ theorem cacheOK_step {n : Int} {s : State} (h : s.cache.OKn n) (op : Op) :
 theorem cacheOK_run {n : Int} (ops : List Op) (s : State) (h : s.cache.OKn n) :
     (run s ops).cache.OKn n :=
   foldl_pred (fun st : State => st.cache.OKn n) step (fun st o hq => cacheOK_step hq o) ops s h
+
+/-! ### CheckTx split into its two halves -/
+
+theorem recordPeer_core (s : State) (tx : Bytes) (p : Nat) : Core (recordPeer s tx p) = Core s := by
+  simp only [Core, recordPeer_keys]; rfl
+
+theorem sbegin_core (a : SState) (tx : Bytes) (p : Nat) :
+    Core (sbegin a tx p).1.s = Core a.s ∧ ((sbegin a tx p).1.s.cache = a.s.cache ∨
+      (sbegin a tx p).1.s.cache = (a.s.cache.push tx).1) := by
+  unfold sbegin
+  split
+  · exact ⟨rfl, Or.inl rfl⟩
+  · split
+    · exact ⟨rfl, Or.inl rfl⟩
+    · simp only
+      split
+      · exact ⟨recordPeer_core _ _ _, Or.inr rfl⟩
+      · exact ⟨rfl, Or.inr rfl⟩
+
+theorem sfinish_spec {a : SState} (hi : Inv a.s) (i : Nat) (v : Verdict) :
+    Inv (sfinish a i v).1.s ∧ (sfinish a i v).1.s.cfg = a.s.cfg ∧
+    (Bounded a.s → Bounded (sfinish a i v).1.s) := by
+  unfold sfinish
+  split
+  · exact ⟨hi, rfl, fun h => h⟩
+  · rename_i p _
+    simp only
+    obtain ⟨h1, h2, _, _, h5, _⟩ := addNew_spec (s := { a.s with clock := a.s.clock + 1 }) hi
+      { tx := p.tx, height := p.height, seq := a.s.clock, gas := 0, prio := 0, sender := "" } v
+    split
+    · have hc := recordPeer_core (addNewTransaction { a.s with clock := a.s.clock + 1 }
+        { tx := p.tx, height := p.height, seq := a.s.clock, gas := 0, prio := 0, sender := "" } v).1 p.tx p.peer
+      have hcfg : (recordPeer (addNewTransaction { a.s with clock := a.s.clock + 1 }
+          { tx := p.tx, height := p.height, seq := a.s.clock, gas := 0, prio := 0, sender := "" } v).1 p.tx p.peer).cfg = a.s.cfg := h2
+      exact ⟨inv_of_core hc h1, hcfg, fun hb => bounded_of_core hc (h5 hb)⟩
+    · exact ⟨h1, h2, h5⟩
+
+theorem sstep_spec {a : SState} (hi : Inv a.s) (op : SOp) :
+    Inv (sstep a op).s ∧ (sstep a op).s.cfg = a.s.cfg ∧ (Bounded a.s → Bounded (sstep a op).s) := by
+  cases op with
+  | begin tx p =>
+    have hc := (sbegin_core a tx p).1
+    have hcfg : (sbegin a tx p).1.s.cfg = a.s.cfg := by
+      have := congrArg (·.2.2.2.1) hc; simpa [Core] using this
+    exact ⟨inv_of_core hc hi, hcfg, fun hb => bounded_of_core hc hb⟩
+  | finish i v => exact sfinish_spec hi i v
+  | update h b pre post rv ex =>
+    obtain ⟨h1, h2, h3, _⟩ := update_spec hi h b pre post rv ex
+    exact ⟨h1, h2, h3⟩
+
+theorem srun_spec (ops : List SOp) : ∀ {a : SState}, Inv a.s →
+    Inv (srun a ops).s ∧ (srun a ops).s.cfg = a.s.cfg ∧ (Bounded a.s → Bounded (srun a ops).s) := by
+  induction ops with
+  | nil => intro a hi; exact ⟨hi, rfl, fun h => h⟩
+  | cons o r ih =>
+    intro a hi
+    obtain ⟨a1, a2, a3⟩ := sstep_spec hi o
+    obtain ⟨b1, b2, b3⟩ := ih a1
+    exact ⟨b1, b2.trans a2, fun h => b3 (a3 h)⟩
 
 end Tmv.Mempool.V1
